@@ -51,6 +51,14 @@ def gen_c06_case(rng, focus=None, nreads=None):
         if case["with_qual"]:
             break
     case["interleaved_in"] = False
+    # adapter names need not be unique (`-a x=AAA -a x=CCC`): per-adapter statistics of the workers must be merged by position
+    if rng.random() < 0.3:
+        ix = [i for i, t in enumerate(case["argv"]) if t[:1] in "ab" and t[1:2].isdigit() and "=" in t]
+        by_side = [[i for i in ix if case["argv"][i][0] == c] for c in "ab"]
+        for group in by_side:
+            if len(group) >= 2:
+                i, j = rng.sample(group, 2)
+                case["argv"][j] = case["argv"][i].split("=", 1)[0] + "=" + case["argv"][j].split("=", 1)[1]
     p1, p2 = plain_adapters(case["argv"])
     n = nreads or rng.randint(4, 36)
     case["reads1"], case["reads2"] = pipe.gen_reads(rng, n, p1, p2, case["paired"], True, "--revcomp" in case["argv"])
